@@ -3,6 +3,7 @@ package main
 import (
 	"fmt"
 	"go/token"
+	"regexp"
 	"strings"
 
 	"golang.org/x/tools/go/ssa"
@@ -248,12 +249,30 @@ func runC05(c *Ctx) {
 	// ---- import / propose doors
 	if vp := c.mustFn("block", "manager", "verifyProofForLastBlock"); vp != nil {
 		vcs := c.calls(vp, byMethod("VerifyBlock"))
+		door := vp
+		if len(vcs) == 0 {
+			// the verification may sit in a local helper that is handed the same (block, votes) in the
+			// same positions: the helper is then the door, and vp must succeed only when it did
+			for g, site := range c.localHelpers(vp, true) {
+				same := len(site.Common().Args) == len(vp.Params) && len(g.Params) == len(vp.Params)
+				for i := range vp.Params {
+					same = same && site.Common().Args[i] == ssa.Value(vp.Params[i])
+				}
+				if hv := c.calls(g, byMethod("VerifyBlock")); same && len(hv) == 1 {
+					vcs, door = hv, g
+					last := g.Signature.Results().Len() - 1
+					for _, e := range successAlts(vp) {
+						c.requireGuard("C05.import-doors", "verifyProofForLastBlock success", e.pos(), e.Guards, wSame(g.Name()+" error == nil", `^\$r\.`+regexp.QuoteMeta(g.Name())+`\(\$0,\$1\)#`+fmt.Sprint(last)+`$`, `^nil$`))
+					}
+				}
+			}
+		}
 		if len(vcs) != 1 {
 			c.violate("C05.import-doors", "verifyProofForLastBlock", vp.Pos(), fmt.Sprintf("expected one VerifyBlock call, found %d", len(vcs)))
 		} else {
 			recv, a := callArgs(vcs[0].Common())
 			c.check(render(recv) == "$1" && render(a[0]) == "$0" && strings.Contains(render(a[1]), ".GetVoters("), "C05.import-doors", "verifyProofForLastBlock arguments", vcs[0].Pos(), "votes.VerifyBlock(block, its voters)", "VerifyBlock called as "+render(vcs[0].Instr.Value()))
-			for _, e := range successAlts(vp) {
+			for _, e := range successAlts(door) {
 				c.requireGuard("C05.import-doors", "verifyProofForLastBlock success", e.pos(), e.Guards, wSame("VerifyBlock error == nil", `\.VerifyBlock\(.*#1$`, `^nil$`))
 				c.requireGuard("C05.import-doors", "verifyProofForLastBlock success", e.pos(), e.Guards, wSame("GetVoters error == nil", `^\$0\.[^ ]*GetVoters\([^()]*\)#1$`, `^nil$`))
 			}
